@@ -1,7 +1,55 @@
 import ScVerif.Base.Line
-/-! Driver handler for C11 (stub: replaced by the property's owner). -/
-namespace ScVerif.C11
+import ScVerif.C11.Lockset
+/-! Driver handler for C11: evaluates the executable lockset definitions on rows sent by the harness.
 
-def handle (_toks : List String) : String := "!bad-op"
+Row encoding (no spaces): `field,kind,phase,role,held,rel,acq` with `kind ∈ {R,W}`, `phase ∈ {init,live}`,
+`held = l:R;l:X;…` or `-`, `rel`/`acq` = `c;c;…` or `-`; all names are numbers.
+
+* `pair <rowA> <rowB>`      → `conflict=<0|1> ordered=<0|1> ok=<0|1>`
+* `racefree <row> <row> …`  → `true` | `false i:j,i:j,…` (unordered conflicting pairs, i ≤ j)
+-/
+namespace ScVerif.C11
+open ScVerif.Line
+
+def parseNatList? (s : String) : Option (List Nat) :=
+  if s = "-" then some [] else (s.splitOn ";").mapM parseNat?
+
+def parseHeld? (s : String) : Option (List (Nat × LMode)) :=
+  if s = "-" then some []
+  else (s.splitOn ";").mapM fun p =>
+    match p.splitOn ":" with
+    | [l, "R"] => (parseNat? l).map fun n => (n, LMode.shared)
+    | [l, "X"] => (parseNat? l).map fun n => (n, LMode.excl)
+    | _ => none
+
+def parseRow? (s : String) : Option Access :=
+  match s.splitOn "," with
+  | [f, k, ph, ro, h, rel, acq] => do
+    let field ← parseNat? f
+    let kind ← (match k with | "R" => some Kind.R | "W" => some Kind.W | _ => none)
+    let phase ← (match ph with | "init" => some Phase.init | "live" => some Phase.live | _ => none)
+    let role ← parseNat? ro
+    let held ← parseHeld? h
+    let relAfter ← parseNatList? rel
+    let acqBefore ← parseNatList? acq
+    pure { field, kind, fn := 0, held, phase, role, relAfter, acqBefore }
+  | _ => none
+
+def bit (b : Bool) : String := if b then "1" else "0"
+
+def handle (toks : List String) : String :=
+  match toks with
+  | ["pair", a, b] =>
+    match parseRow? a, parseRow? b with
+    | some a, some b =>
+      s!"conflict={bit (conflictB a b)} ordered={bit (orderedB a b)} ok={bit (pairOkB a b)}"
+    | _, _ => "!bad-op"
+  | "racefree" :: rows =>
+    match rows.mapM parseRow? with
+    | some tbl =>
+      if raceFreeB tbl then "true"
+      else "false " ++ ",".intercalate ((badPairs tbl).map fun (i, j) => s!"{i}:{j}")
+    | none => "!bad-op"
+  | _ => "!bad-op"
 
 end ScVerif.C11
